@@ -12,6 +12,15 @@ Proof.
   cbn. repeat constructor; cbn; intuition discriminate.
 Qed.
 
+(* d = {'self': d, 'l': [d, (1, l)]}  with l that list: cycles through a dict and a list *)
+Definition ex_cyclic : obj :=
+  ONode 0 KDict [(KT 0, ORef 0 KDict);
+                 (KT 1, ONode 1 KList [(KI 0, ORef 0 KDict); (KI 1, ONode 2 KTuple [(KI 0, OLeaf 5); (KI 1, ORef 1 KList)])])].
+
+Lemma ex_cyclic_ok :
+  imm_backref [] ex_cyclic = false /\ exists v m lg, spec_remap None ex_cyclic = Done v m lg.
+Proof. split; [reflexivity|]. eexists. eexists. eexists. vm_compute. reflexivity. Qed.
+
 (* t = (l,), l = [t] *)
 Definition tuple_cycle : obj := ONode 0 KTuple [(KI 0, ONode 1 KList [(KI 0, ORef 0 KTuple)])].
 
